@@ -805,5 +805,18 @@ func TestReplay_MassiveStages(t *testing.T) {
 	if err := OutputFromMarkdown(&replayFailWriter{okWrites: 0}, strings.NewReader(doc), WithMassive(ctx), WithEncodeYAML()); err == nil {
 		t.Fatalf("REPLAY-FAIL gtree.treePipeline.handlePipelineErr/post#seen input: massive YAML output, writer refusing every write: returned nil")
 	}
+	for _, hdoc := range []string{"# a\n- x\n", "# a\n- x\n  - y\n# b\n- z\n", "# a\n# b\n- x\n"} {
+		var simple bytes.Buffer
+		if err := OutputFromMarkdown(&simple, strings.NewReader(hdoc)); err != nil {
+			t.Fatalf("REPLAY-FAIL gtree.split#1/loop#1/inv-keep#cuts input: document %q is rejected by the simple mode: %v", hdoc, err)
+		}
+		for i := 0; i < 5; i++ {
+			var massive bytes.Buffer
+			err := OutputFromMarkdown(&massive, strings.NewReader(hdoc), WithMassive(ctx))
+			if err != nil || len(massive.String()) != len(simple.String()) {
+				t.Fatalf("REPLAY-FAIL gtree.split#1/loop#1/inv-keep#cuts input: document %q with heading roots, massive mode: err=%v out=%q (simple mode: %q)", hdoc, err, massive.String(), simple.String())
+			}
+		}
+	}
 	t.Logf("REPLAY-OK massive stages")
 }
